@@ -235,7 +235,7 @@ def check_spec(spec: NetSpec, label, st: Stats, tier, palette_seed, light=False)
         bad(f"C07/second-network/exception/{exc_site(e)}/{type(e).__name__}",
             f"same element objects re-used in a second network: {exc_text(e)}", phase="second-network")
     # 4b. the same network reached by editing another, already stepped network in place (non-initial state)
-    for emode in ("links", "attachments", "replace", "params"):
+    for emode in (("attachments", "params") if light else ("links", "attachments", "replace", "params")):
         for sym in (("SX",) if light else ("SX", "MX")):
             st.inc("executions")
             st.inc("transitions", 3)
